@@ -191,7 +191,10 @@ class Adversary(Scheduling):
             handed.append(m)
         if len(workflow_plan.tasks) == 0:
             workflow_plan.status = WorkflowStatus.FINISHED
-            cluster.release_batch_resources(workflow_plan.id)
+            # Cluster's documentation: reservations are cleaned up by the Scheduler when the workflow has finished
+            # "and requires no additional code on behalf of the user" - half of the programs rely on that
+            if self.program[0] % 2:
+                cluster.release_batch_resources(workflow_plan.id)
         for t, m in allocations.items():
             self.proposals.append((clock, t.id, m.id))
         return allocations, workflow_plan.status, task_pool
